@@ -88,7 +88,7 @@ func c03(c *an.Ctx) {
 			f.NeverAfter(r, logRm, an.Union(delList, delFiles, rn), "no delete/rename after the intent log was removed")
 		}
 		ls := f.Locks(nil)
-		f.LockHeld(r, ls, an.Union(delList, delFiles, srt), `re:^local\(\w+\)\.lock$`, an.LockW, "file list mutation under the exclusive per-measurement list lock")
+		f.LockHeld(r, ls, an.Union(delList, delFiles, srt), `re:getFiles\(.*\)\[p\d\]#0\.lock$`, an.LockW, "file list mutation under the exclusive per-measurement list lock")
 	}
 	replace("C03.R1", I+":MmsTables.ReplaceFiles", I+":RenameTmpFiles")
 	replace("C03.R1b", I+":csImmTableImpl.ReplaceFiles", I+":RenameIndexFiles")
@@ -305,7 +305,7 @@ func c03(c *an.Ctx) {
 			reset := f.Find(call(r, "github.com/savsgio/dictpool:Dict.Reset"))
 			gen := f.Find(call(r, I+":MmsTables.genCompactPlan"))
 			if !r.Failed() {
-				edges := f.GuardEdges(an.AtomLike(`^local\(\w+\)==p2$`, false))
+				edges := f.GuardEdges(an.AtomLike(`^local\(\w+\)\.LevelAndSequence\(\)#0==p2$`, false))
 				f.AfterEdgesMustPass(r, edges, reset, "level change ⇒ seqMap.Reset before the scan continues")
 				f.AfterEdgesMustPass(r, edges, gen, "level change ⇒ genCompactPlan of the run collected so far")
 			}
